@@ -88,10 +88,60 @@ def xsize (xt : Nat) : Nat :=
 /-- default fill values (NC_FILL_*), as integers; float/double default fill is ≈ 9.97e36, printed by
     the harness as a non-integer: represented here by the marker `fillFloatMarker` -/
 def fillFloatMarker : Int := 99692099683868690
+/-- marker printed as `?` (value not specified at this level) -/
+def unspecMarker : Int := 99692099683868691
 def defaultFill (xt : Nat) : Int :=
   match xt with
   | 1 => -127 | 2 => 0 | 3 => -32767 | 4 => -2147483647 | 5 => fillFloatMarker | 6 => fillFloatMarker
   | 7 => 255 | 8 => 65535 | 9 => 4294967295 | 10 => -9223372036854775806 | 11 => 18446744073709551614 | _ => 0
+
+/-- value range of an external type (none = floating point: every test value fits) -/
+def xrange (xt : Nat) : Option (Int × Int) :=
+  match xt with
+  | 1 => some (-128, 127) | 2 => some (0, 255) | 3 => some (-32768, 32767) | 4 => some (-2147483648, 2147483647)
+  | 7 => some (0, 255) | 8 => some (0, 65535) | 9 => some (0, 4294967295)
+  | 10 => some (-9223372036854775808, 9223372036854775807) | 11 => some (0, 18446744073709551615)
+  | _ => none
+
+/-- value range and default fill value of a memory type -/
+def mrange (mt : String) : Option (Int × Int) :=
+  match mt with
+  | "schar" => some (-128, 127) | "uchar" => some (0, 255) | "text" => some (-128, 255)
+  | "short" => some (-32768, 32767) | "ushort" => some (0, 65535)
+  | "int" => some (-2147483648, 2147483647) | "uint" => some (0, 4294967295)
+  | "long" => some (-9223372036854775808, 9223372036854775807)
+  | "longlong" => some (-9223372036854775808, 9223372036854775807) | "ulonglong" => some (0, 18446744073709551615)
+  | _ => none
+
+def memFill (mt : String) : Int :=
+  match mt with
+  | "schar" => -127 | "uchar" => 255 | "short" => -32767 | "ushort" => 65535 | "int" => -2147483647
+  | "uint" => 4294967295 | "long" => -2147483647 | "longlong" => -9223372036854775806
+  | "ulonglong" => 18446744073709551614 | _ => fillFloatMarker
+
+def inRange (r : Option (Int × Int)) (v : Int) : Bool :=
+  match r with
+  | none => true
+  | some (lo, hi) => lo ≤ v && v ≤ hi
+
+/-- C09 at the API level: one element written through memory type `mt` into external type `xt`
+    (classic formats exempt NC_BYTE <- unsigned char from the range check: the byte is reinterpreted) -/
+def convPut (fmt xt : Nat) (mt : String) (fill : Int) (v : Int) : Int × Bool :=
+  if xt == 2 then (v, false) else
+  if fmt != 5 && xt == 1 && mt == "uchar" then ((v + 128) % 256 - 128, false) else
+  if v == fillFloatMarker then (v, false) else
+  if inRange (xrange xt) v then (v, false) else (fill, true)
+
+/-- one stored element read through memory type `mt` -/
+def convGet (fmt xt : Nat) (mt : String) (x : Int) : Int × Bool :=
+  if xt == 2 then (x, false) else
+  if fmt != 5 && xt == 1 && mt == "uchar" then (x % 256, false) else
+  if x == fillFloatMarker then (if mt == "float" || mt == "double" then (x, false) else (memFill mt, true)) else
+  -- reading an integer through float/double rounds when it is not exactly representable: the rounded value is
+  -- C09's business (IEEE model there); here such elements are left unspecified
+  if mt == "float" && (x > 16777216 || x < -16777216) then (unspecMarker, false) else
+  if mt == "double" && (x > 9007199254740992 || x < -9007199254740992) then (unspecMarker, false) else
+  if inRange (mrange mt) x then (x, false) else (memFill mt, true)
 
 def findIdx? {α} (p : α → Bool) : List α → Option Nat
   | [] => none
